@@ -70,13 +70,27 @@ def function_table(date, data_cols, targets, functions=None, group_specs=None, p
     _, fl, _, _ = _imports()
     if functions is None:
         functions = env(date)[1]
-    return fl.load_and_check_functions(
-        functions_raw=functions,
-        targets=list(targets),
-        data_cols=list(data_cols),
-        aggregate_by_group_specs=group_specs or {},
-        aggregate_by_p_id_specs=pid_specs or {},
-    )
+    import re
+
+    targets = list(targets)
+    for _ in range(6):
+        try:
+            return fl.load_and_check_functions(
+                functions_raw=functions,
+                targets=targets,
+                data_cols=list(data_cols),
+                aggregate_by_group_specs=group_specs or {},
+                aggregate_by_p_id_specs=pid_specs or {},
+            )
+        except ValueError as e:
+            # default targets that do not exist yet at an early date (e.g. abgelt_st_y_sn before 2009) are dropped
+            if "no corresponding function" not in str(e):
+                raise
+            missing = set(re.findall(r'"([^"]+)"', str(e)))
+            if not missing or not (missing & set(targets)):
+                raise
+            targets = [t for t in targets if t not in missing]
+    raise RuntimeError("function_table: could not settle the target list")
 
 
 def arg_names(fn):
